@@ -668,6 +668,32 @@ func main() {
 					if err != nil || !bytes.Equal(d, p.data) {
 						return explore.Failf("helper-roundtrip", "%v", err)
 					}
+					// the streaming variants, into the caller's writer (several payloads through one
+					// writer: each call appends exactly its own output), and with helpers the
+					// application configured itself
+					helpers := []wsflate.Helper{h,
+						{Compressor: compressors()[0].mk, Decompressor: newDecomp},
+						{Compressor: compressors()[5].mk, Decompressor: newDecomp}}
+					for hi := range helpers {
+						hp := &helpers[hi]
+						var cb, db bytes.Buffer
+						cb.WriteString("PREFIX")
+						if err := hp.CompressTo(&cb, p.data); err != nil {
+							return explore.Failf("helper-CompressTo", "helper #%d: %v", hi, err)
+						}
+						cc := cb.Bytes()[len("PREFIX"):]
+						if out, _, ierr := refmodel.Inflate(append(append([]byte{}, cc...), tail...)); ierr != nil || !bytes.Equal(out, p.data) {
+							return explore.Failf("helper-CompressTo-not-deflate", "helper #%d: %v", hi, ierr)
+						}
+						db.WriteString("PREFIX")
+						if err := hp.DecompressTo(&db, cc); err != nil || !bytes.Equal(db.Bytes()[len("PREFIX"):], p.data) {
+							return explore.Failf("helper-DecompressTo", "helper #%d: err=%v got %d bytes want %d", hi, err, db.Len()-6, len(p.data))
+						}
+						// a second call on the same helper and the same writers
+						if err := hp.DecompressTo(&db, cc); err != nil || !bytes.Equal(db.Bytes()[len("PREFIX")+len(p.data):], p.data) {
+							return explore.Failf("helper-DecompressTo-second-call", "helper #%d: err=%v", hi, err)
+						}
+					}
 					return nil
 				})
 			}
